@@ -3,6 +3,7 @@ package otto
 import (
 	"fmt"
 	"math"
+	"math/big"
 	"regexp"
 	"strconv"
 	"strings"
@@ -47,7 +48,13 @@ func numberToStringRadix(value Value, radix int) string {
 	}
 	// FIXME This is very broken
 	// Need to do proper radix conversion for floats, ...
-	// This truncates large floats (so bad).
+	if math.Abs(float) >= 1<<63 {
+		// Does not fit an int64 (the conversion would be undefined): every double of this size is an
+		// integer, print its exact digits.
+		integer, _ := new(big.Float).SetFloat64(float).Int(nil)
+		return integer.Text(radix)
+	}
+	// This truncates fractions.
 	return strconv.FormatInt(int64(float), radix)
 }
 
